@@ -38,7 +38,7 @@ func RCodec(c *core.Ctx) {
 	rdFn := p.LookupFunc("syntax", "parser.scanCharEscape")
 	rd, _ := p.DeclOf(rdFn)
 	scanHex := p.LookupFunc("syntax", "parser.scanHex")
-	metaConst, _ := syn.Types.Scope().Lookup("meta").(*types.Const)
+	metaConst, _ := p.LookupObj("syntax", "meta").(*types.Const)
 	if esc == nil || rd == nil || scanHex == nil || metaConst == nil {
 		c.Anchor("syntax.escape / parser.scanCharEscape / parser.scanHex / meta")
 		return
@@ -48,10 +48,10 @@ func RCodec(c *core.Ctx) {
 	meta := constant.StringVal(metaConst.Val())
 
 	// ---- reader: switch on the escape letter
-	readerRet := map[rune]int64{}   // letter -> returned rune (constant returns)
+	readerRet := map[rune]int64{}    // letter -> returned rune (constant returns)
 	readerOther := map[rune]string{} // letter -> some other successful result of the same arm
-	readerHex := map[rune]int64{}   // letter -> scanHex width
-	readerLabels := map[rune]bool{} // all case labels
+	readerHex := map[rune]int64{}    // letter -> scanHex width
+	readerLabels := map[rune]bool{}  // all case labels
 	var rdSwitch *ast.SwitchStmt
 	ast.Inspect(rd.Body, func(n ast.Node) bool {
 		if sw, ok := n.(*ast.SwitchStmt); ok && rdSwitch == nil && sw.Tag != nil {
@@ -173,7 +173,7 @@ func RCodec(c *core.Ctx) {
 	// printable, not in meta -> written raw: must not be the backslash itself (it is in meta) — covered above
 
 	// ---- meta covers the parser's special characters
-	cat, _ := syn.Types.Scope().Lookup("_category").(*types.Var)
+	cat, _ := p.LookupObj("syntax", "_category").(*types.Var)
 	var catVals []int64
 	for _, f := range syn.Syntax {
 		ast.Inspect(f, func(x ast.Node) bool {
@@ -312,34 +312,112 @@ func hexArms(c *core.Ctx, info *types.Info, esc *ast.FuncDecl, deflt *ast.CaseCl
 		c.Check(has && int64(minD) == want && int64(maxD) == want, fmt.Sprintf("escape / %s is followed by exactly the digits the reader consumes", prefix), pos,
 			"on this path r is in [%#x, %#x]: the writer produces between %d and %d hex digits (after padding); scanCharEscape reads exactly %d", lo, hi, minD, maxD, want)
 	}
+	// refine: cond compares the rune with a constant (either operand order)
+	refine := func(cond ast.Expr, lo, hi int64) (tlo, thi, flo, fhi int64, ok bool) {
+		be, isB := ast.Unparen(cond).(*ast.BinaryExpr)
+		if !isB {
+			return
+		}
+		x, y, op := be.X, be.Y, be.Op
+		if !isR(x) && isR(y) {
+			x, y = y, x
+			switch op {
+			case token.LSS:
+				op = token.GTR
+			case token.LEQ:
+				op = token.GEQ
+			case token.GTR:
+				op = token.LSS
+			case token.GEQ:
+				op = token.LEQ
+			}
+		}
+		if !isR(x) {
+			return
+		}
+		k, isC := core.ConstInt(info, y)
+		if !isC {
+			return
+		}
+		tlo, thi, flo, fhi = lo, hi, lo, hi
+		switch op {
+		case token.LSS:
+			thi, flo = min(hi, k-1), max(lo, k)
+		case token.LEQ:
+			thi, flo = min(hi, k), max(lo, k+1)
+		case token.GTR:
+			tlo, fhi = max(lo, k+1), min(hi, k)
+		case token.GEQ:
+			tlo, fhi = max(lo, k), min(hi, k-1)
+		default:
+			return
+		}
+		return tlo, thi, flo, fhi, true
+	}
+	terminates := func(stmts []ast.Stmt) bool {
+		if len(stmts) == 0 {
+			return false
+		}
+		switch l := stmts[len(stmts)-1].(type) {
+		case *ast.ReturnStmt:
+			return true
+		case *ast.BranchStmt:
+			return l.Tok == token.BREAK || l.Tok == token.CONTINUE || l.Tok == token.GOTO
+		}
+		return false
+	}
+	// walk keeps the interval through `if r < K { ...; break }` sequences, if / else-if
+	// chains and tagless switches — the three ways the same decision tree is written
 	walk = func(stmts []ast.Stmt, lo, hi int64) {
 		var run []ast.Stmt
 		for _, st := range stmts {
-			ifs, ok := st.(*ast.IfStmt)
-			if ok {
-				if be, isB := ast.Unparen(ifs.Cond).(*ast.BinaryExpr); isB && isR(be.X) {
-					if k, isC := core.ConstInt(info, be.Y); isC {
-						// the then-branch ends the arm (break/return): refine both sides
-						tlo, thi, flo, fhi := lo, hi, lo, hi
-						switch be.Op {
-						case token.LSS:
-							thi, flo = min(hi, k-1), max(lo, k)
-						case token.LEQ:
-							thi, flo = min(hi, k), max(lo, k+1)
-						case token.GTR:
-							tlo, fhi = max(lo, k+1), min(hi, k)
-						case token.GEQ:
-							tlo, fhi = max(lo, k), min(hi, k-1)
-						default:
-							run = append(run, st)
+			switch x := st.(type) {
+			case *ast.IfStmt:
+				if tlo, thi, flo, fhi, ok := refine(x.Cond, lo, hi); ok && x.Init == nil {
+					analyzeRun(run, lo, hi)
+					run = nil
+					walk(x.Body.List, tlo, thi)
+					elseEnds := false
+					switch e := x.Else.(type) {
+					case *ast.BlockStmt:
+						walk(e.List, flo, fhi)
+						elseEnds = terminates(e.List)
+					case *ast.IfStmt:
+						walk([]ast.Stmt{e}, flo, fhi)
+					}
+					switch {
+					case terminates(x.Body.List):
+						lo, hi = flo, fhi
+					case elseEnds:
+						lo, hi = tlo, thi
+					}
+					continue
+				}
+			case *ast.SwitchStmt:
+				if x.Tag == nil && x.Init == nil {
+					analyzeRun(run, lo, hi)
+					run = nil
+					clo, chi := lo, hi
+					var deflt *ast.CaseClause
+					for _, cs := range x.Body.List {
+						cc := cs.(*ast.CaseClause)
+						if cc.List == nil {
+							deflt = cc
 							continue
 						}
-						analyzeRun(run, lo, hi)
-						run = nil
-						walk(ifs.Body.List, tlo, thi)
-						lo, hi = flo, fhi
-						continue
+						if len(cc.List) == 1 {
+							if tlo, thi, flo, fhi, ok := refine(cc.List[0], clo, chi); ok {
+								walk(cc.Body, tlo, thi)
+								clo, chi = flo, fhi
+								continue
+							}
+						}
+						walk(cc.Body, clo, chi)
 					}
+					if deflt != nil {
+						walk(deflt.Body, clo, chi)
+					}
+					continue
 				}
 			}
 			run = append(run, st)
@@ -425,7 +503,7 @@ func RUnits(c *core.Ctx) {
 			for _, ins := range b.Instrs {
 				switch x := ins.(type) {
 				case *ssa.Call:
-					if cal := x.Call.StaticCallee(); cal != nil && cal.Pkg != nil && cal.Pkg.Pkg.Path() == "strings" && strings.Contains(cal.Name(), "Index") {
+					if cal := x.Call.StaticCallee(); cal != nil && cal.Pkg != nil && cal.Pkg.Pkg.Path() == "strings" && strings.Contains(core.BaseName(cal), "Index") {
 						tainted[x] = true
 						nSrc++
 					}
@@ -699,7 +777,7 @@ func RKeyInj(c *core.Ctx) {
 					continue
 				}
 				n++
-				if cal.Pkg.Pkg.Path() == "bytes" && (cal.Name() == "WriteRune" || cal.Name() == "ReadRune") {
+				if cal.Pkg.Pkg.Path() == "bytes" && (core.BaseName(cal) == "WriteRune" || core.BaseName(cal) == "ReadRune") {
 					lossy, what = call.Pos(), cal.Name()
 				}
 			}
